@@ -42,13 +42,12 @@ class EidField(CborField):
 
         if scheme_type == EidField.TypeCode.dtn:
             authority = parts[1]
-            path = parts[2]
-            ssp = ''
-            if authority:
-                ssp += '//' + authority
-                if not path.startswith('/'):
-                    path = '/' + path
-            ssp += path
+            # The SSP is kept verbatim because the demux part may contain any
+            # visible character, including the "?" and "#" URI delimiters
+            ssp = x.split(':', 1)[1]
+            if authority and ssp == '//' + authority:
+                # an empty demux still needs the name delimiter
+                ssp += '/'
 
             return [scheme_type, ssp]
 
